@@ -33,6 +33,40 @@ prop("C04", "inbound QoS 0/1/2 flows", "exploration",
      assumptions=["the broker re-uses an in-flight QoS2 packet id only to retransmit the same message (conforming broker)",
                   "a PUBCOMP in reply to an unknown PUBREL is permitted but not required"])
 
+prop("C05", "emitted packets well-formed, fields as requested", "exploration",
+     "length codec: remainingLength(n) against the 2.2.3 reference algorithm for EVERY n in 0..268435455 (both tiers) and "
+     "readPacket on reference-encoded headers for boundary-biased / random n; API: rapid-generated Connect option sets and "
+     "sequences (0..12) of Publish / Subscribe / Unsubscribe / Ping / inbound PUBLISH / rejected Publish, payload lengths "
+     "constructed to land within +-2 of the 127/128, 16383/16384, 2097151/2097152 remaining-length boundaries; every byte "
+     "written is strictly decoded by the independent reference codec and compared field by field with the request. "
+     "Non-trivial = remaining length >= 128, or CONNECT with >= 2 optional fields, or >= 2 filters, or a multi-byte topic; "
+     "distinct = FNV-64 of the case JSON (API cases) / the length (codec cases).",
+     [dict(tests="^TestVerifC05_LenCodecAll$", exhaustive_once=True),
+      dict(tests="^TestVerifC05_Len$", checks_quick=6000, checks_thorough=40000, shards=4),
+      dict(tests="^TestVerifC05_Packets$", checks_quick=5000, checks_thorough=40000, shards=12)],
+     assumptions=["inputs the API documents as panics are excluded (strings > 65535 bytes, packets > 268435455 bytes, QoS>2 in Subscribe)",
+                  "password without user name, empty topics, wildcards in topic names, invalid UTF-8 are not generated",
+                  "len(payload) == MaxPayloadLen is not generated (the code rejects it, the property only says 'over the maximum')"],
+     exhaustive_note="only the length ENCODER is enumerated completely (all 268435456 lengths); everything else is sampling")
+
+prop("C06", "arbitrary broker bytes never crash the client", "exploration",
+     "three generated targets: (1) every packet parser and unpackString on (flag, contents) built from mutated well-formed bodies, "
+     "short and random bytes; oracle = no panic, listed malformed classes rejected, accepted input decoded as the reference does; "
+     "(2) readPacket on constructed headers (1..12 length bytes, terminated or not, hostile constants, valid lengths) through a "
+     "counting reader; oracle = no panic, no single Read request > 268435455, agreement with the reference framing; (3) a connected "
+     "client fed a well-formed prefix (C04 sequence), then one constructed malformed packet of each listed class, then junk; oracle = "
+     "prefix timeline as in C04, Done() closes, Err() non-nil and equal to the Closed callback's error, documented sentinel found by "
+     "errors.Is. A process death (panic in a library goroutine, runtime out-of-memory under an 8 GB address-space cap) is a violation "
+     "with the case in flight as replay. Non-trivial = parser input with >= 1 content byte / header with >= 1 length byte / "
+     ">= 1 valid packet before the malformed one; distinct = FNV-64 of the case JSON.",
+     [dict(tests="^TestVerifC06_Parsers$", checks_quick=30000, checks_thorough=300000, shards=4,
+           fuzz=[dict(target="FuzzVerifC06Parsers", time="90s", workers=6)]),
+      dict(tests="^TestVerifC06_ReadPacket$", checks_quick=8000, checks_thorough=40000, shards=6, as_limit_gb=8,
+           fuzz=[dict(target="FuzzVerifC06ReadPacket", time="90s", workers=4)]),
+      dict(tests="^TestVerifC06_Connected$", checks_quick=4000, checks_thorough=40000, shards=6, as_limit_gb=8)],
+     assumptions=["only the malformed classes listed in the property are asserted to end the link (e.g. an over-long PUBACK body is not)",
+                  "ill-formed UTF-8 and encoded surrogates in topics are 'don't care' (accepting or rejecting both pass)"])
+
 # ---------------------------------------------------------------------------------------------
 # texts for MANIFEST.json (tools/gen_manifest.py)
 
@@ -57,3 +91,18 @@ mtext("C04", "E5 scripted peer + reference automaton",
       "is compared event by event with a reference automaton; sampling of the sequence space, no completeness claim.",
       "in-memory transport honours io.ReadWriteCloser; reference automaton follows the property statement",
       "DESIGN.md section 4 / C04")
+
+mtext("C05", "E1 reference codec + E5 scripted peer",
+      "exhaustive loop over all remaining-length values + rapid property tests, oracle = round trip through an independent strict MQTT 3.1.1 decoder/encoder",
+      "The length encoder is compared with the specification's algorithm for all 268 435 456 lengths (complete); packets produced through "
+      "the API are decoded by a second, strict implementation and compared field-by-field with the request for generated inputs (sampling, "
+      "biased to every remaining-length boundary).",
+      "reference codec correct (self-tested by round trip); excluded inputs listed in assumptions",
+      "DESIGN.md section 4 / C05")
+
+mtext("C06", "E1 reference codec + E5 scripted peer",
+      "rapid property tests with constructed malformed inputs + native go fuzzing of the parsers and readPacket, oracle inside the target",
+      "Sampling of the byte-string space with generators built to reach each malformed class named by the property, plus coverage-guided "
+      "fuzzing in the thorough tier; shows crashes and missed rejections, cannot show their absence.",
+      "process death is attributed to the case in flight (cur.json); 8 GB address-space cap turns absurd allocations into a visible failure",
+      "DESIGN.md section 4 / C06")
